@@ -284,7 +284,7 @@ def grad_cases(ctx, n_per_pipeline, seed_offset=0):
 def correspond(ctx):
   n_leaf, n_sing, dis_l, fails_l = leaf_cases(ctx, ctx.budget(25, 250))
   n_kin, dis_k, fails_k = kin_cases(ctx, ctx.budget(6, 60))
-  n_g, fails_g = grad_cases(ctx, ctx.budget(1, 10))
+  n_g, fails_g = grad_cases(ctx, ctx.budget(1, 5))
   return dict(
       evaluations=n_leaf + n_kin + n_g, distinct_nontrivial=n_leaf + n_kin,
       rule='(a) 8 leaf functions x random points + singular points (zero vectors, |x|=1, x=1-1e-7): jax.jvp vs dual-number Lean model '
